@@ -24,7 +24,16 @@ inductive Atom where
   | int (n : Nat)
   | str (n : Nat)
   | none
+  /-- any other object that is neither an attrs instance nor a list / tuple / set / dict: an attrs *class*
+      object, a plain class, an object with a catch-all `__getattr__`, a module, a function, … (`kind`, `n`
+      name the object; it is handed through as the very same object) -/
+  | obj (kind n : Nat)
   deriving DecidableEq, Repr, FromJson, ToJson, Inhabited
+
+/-- int / str / None: what the symbolic scalar-wrapping serializer wraps -/
+def Atom.isScalar : Atom → Bool
+  | .obj _ _ => false
+  | _ => true
 
 inductive CKind where
   | list | tuple
@@ -70,6 +79,7 @@ inductive TyTag where
   | ntuple (ty arity : Nat)
   | set | frozenset | dict | odict
   | cls (id : Nat)
+  | obj (kind : Nat)      -- the class of an opaque object (never listed in a filter)
   deriving DecidableEq, Repr, FromJson, ToJson, Inhabited
 
 inductive Filter where
@@ -80,9 +90,10 @@ inductive Filter where
   | notNone                                                              -- lambda a, v: v is not None
   deriving DecidableEq, Repr, FromJson, ToJson, Inhabited
 
-/-- symbolic `value_serializer`: none / wraps every value / wraps scalars only (identity on everything else) -/
+/-- symbolic `value_serializer`: none / wraps every value / wraps int, str, None only / wraps every value that
+    is not an attrs instance, list, tuple, set or dict (identity on everything else) -/
 inductive SerMode where
-  | off | wrap | wrapLeaf
+  | off | wrap | wrapLeaf | wrapAtoms
   deriving DecidableEq, Repr, FromJson, ToJson, Inhabited
 
 inductive TF where
@@ -267,6 +278,7 @@ def tyOf : PVal → TyTag
   | .atom (.int _) => .int
   | .atom (.str _) => .str
   | .atom .none => .noneType
+  | .atom (.obj k _) => .obj k
   | .inst c _ _ => .cls c
   | .coll .list _ => .list
   | .coll .tuple _ => .tuple
@@ -303,17 +315,21 @@ structure Opts where
   ser : SerMode
   deriving Repr, Inhabited
 
-/-- `value_serializer(inst, a, v)` on a scalar field value -/
-def serFieldAtom (m : SerMode) (c : Nat) (f : FI) (a : Atom) : Out :=
+/-- does the symbolic serializer replace this leaf value (else it returns it as it is)? -/
+def serApplies (m : SerMode) (a : Atom) : Bool :=
   match m with
-  | .off => .atom a
-  | _ => .ser (some c) (some f.name) (.atom a)
+  | .off => false
+  | .wrap => true
+  | .wrapLeaf => a.isScalar
+  | .wrapAtoms => true
 
-/-- `value_serializer(None, None, v)` on a scalar inside a container -/
+/-- `value_serializer(inst, a, v)` on a leaf field value -/
+def serFieldAtom (m : SerMode) (c : Nat) (f : FI) (a : Atom) : Out :=
+  if serApplies m a then .ser (some c) (some f.name) (.atom a) else .atom a
+
+/-- `value_serializer(None, None, v)` on a leaf inside a container -/
 def serLeaf (m : SerMode) (a : Atom) : Out :=
-  match m with
-  | .off => .atom a
-  | _ => .ser none none (.atom a)
+  if serApplies m a then .ser none none (.atom a) else .atom a
 
 def consE {α : Type} (a : Except String α) (r : Except String (List α)) : Except String (List α) :=
   match a, r with
@@ -370,8 +386,10 @@ def serFlat (m : SerMode) (c : Nat) (f : FI) (v : PVal) : Out :=
   match m, v with
   | .off, v => embed v
   | .wrap, v => .ser (some c) (some f.name) (embed v)
-  | .wrapLeaf, .atom a => .ser (some c) (some f.name) (.atom a)
+  | .wrapLeaf, .atom a => if a.isScalar then .ser (some c) (some f.name) (.atom a) else .atom a
   | .wrapLeaf, v => embed v
+  | .wrapAtoms, .atom a => .ser (some c) (some f.name) (.atom a)
+  | .wrapAtoms, v => embed v
 
 /-- `asdict`'s loop with `recurse=False` -/
 def flatD (o : Opts) (c : Nat) : List (FI × PVal) → List (String × Out)
